@@ -11,8 +11,40 @@ and its item loop), whose `fuel` argument stands for the Go call stack:
 * `ber2der_total`: the model never runs out of fuel on any input.
 * `readObject_fuel_mono`, `fuel_irrelevant`: once there is enough fuel the result does not depend on
   the fuel, i.e. it is a function of the input only.
+* `depth_bounded`, `ber2der_depth`: with the nesting limit `maxBERDepth = 128` of `readObjectDepth`, whatever is
+  accepted has at most 128 nested constructed encodings, so the Go call stack of `readObjectDepth` and of
+  `EncodeTo` is bounded by a constant, independent of the input.
+* `encodeCost_le`, `ber2der_cost`: `EncodeTo` copies every byte once per enclosing level (each structured
+  object is first written to an inner buffer), so the bytes buffered in total are at most
+  `(depth + 1) × output size ≤ 129 × output size`; without the limit this was quadratic in the input.
 -/
 import Gmsm.Model.BER
+
+namespace Model.BER
+mutual
+  /-- nesting depth of an object tree: the number of constructed encodings on the longest path -/
+  def Obj.depth : Obj → Nat
+    | .prim _ _ => 0
+    | .cons _ items => 1 + depthItems items
+  /-- the maximum of the depths of a list of objects -/
+  def depthItems : List Obj → Nat
+    | [] => 0
+    | o :: os => max o.depth (depthItems os)
+end
+
+mutual
+  /-- Number of bytes written to buffers by the Go `EncodeTo`: a primitive writes its encoding to `out`; a
+      structured object first lets every child write itself to a fresh `inner` buffer and then writes tag,
+      length and the bytes of `inner` to `out` (so a byte at nesting level k is copied k more times). -/
+  def encodeCost : Obj → Nat
+    | .prim tag content => (encodeTo (.prim tag content)).length
+    | .cons tag items => encodeCostItems items + (encodeTo (.cons tag items)).length
+  def encodeCostItems : List Obj → Nat
+    | [] => 0
+    | o :: os => encodeCost o + encodeCostItems os
+end
+end Model.BER
+
 namespace Props.C18
 open Gmsm Model.BER
 
@@ -373,33 +405,33 @@ theorem mono_all (ber : Bytes) : ∀ f : Nat,
 /-- Every object `readObject` returns consumed at least a tag byte and a length byte (`off + 2 ≤ off'`) and
     never claims bytes beyond the input (`off' ≤ len(ber)`); for the indefinite form the two terminator
     octets counted by `off' = end of items + 2` are inside the input too.  So each level of recursion of the Go
-    `readObject` strictly shrinks the remaining input. -/
-theorem readObject_progress {fuel : Nat} {ber : Bytes} {off : Nat} {o : Obj} {off2 : Nat}
-    (h : readObject fuel ber off = .ok (o, off2)) : off + 2 ≤ off2 ∧ off2 ≤ ber.length :=
-  (progress_all ber fuel).1 off o off2 h
+    `readObjectDepth` strictly shrinks the remaining input. -/
+theorem readObject_progress {fuel : Nat} {ber : Bytes} {off d : Nat} {o : Obj} {off2 : Nat}
+    (h : readObject fuel ber off d = .ok (o, off2)) : off + 2 ≤ off2 ∧ off2 ≤ ber.length :=
+  (progress_all ber fuel).1 off d o off2 h
 
 /-- The item loop `for (offset < contentEnd) || indefinite` never moves backwards.  In the indefinite case it
     reads at least one child and stops at a position where the two end-of-contents octets are available
     (`off2 + 2 ≤ len(ber)`).  In the definite case each child is only known to end inside the input, not
     inside `contentEnd` (as in the Go code), so the loop ends at most at `len(ber)` when started inside it. -/
-theorem readItems_progress {fuel : Nat} {ber : Bytes} {off ce : Nat} {ind : Bool} {os : List Obj} {off2 : Nat}
-    (h : readItems fuel ber off ce ind = .ok (os, off2)) :
+theorem readItems_progress {fuel : Nat} {ber : Bytes} {off ce : Nat} {ind : Bool} {d : Nat} {os : List Obj}
+    {off2 : Nat} (h : readItems fuel ber off ce ind d = .ok (os, off2)) :
     off ≤ off2 ∧ (ind = true → off + 2 ≤ off2 ∧ off2 + 2 ≤ ber.length) ∧
       (ind = false → off ≤ ber.length → off2 ≤ ber.length) :=
-  (progress_all ber fuel).2 off ce ind os off2 h
+  (progress_all ber fuel).2 off ce ind d os off2 h
 
-/-- Main result: the recursion of `readObject` is bounded by the input.  With fuel `2 * remaining + 1`
-    (`remaining = len(ber) - off`) the model never reports `fuel`: the nesting depth plus the number of
-    siblings that any input, however hostile, can drive the Go decoder to is at most linear in the number of
-    bytes that are left. -/
-theorem fuel_sufficient (ber : Bytes) (off fuel : Nat) (h : 2 * (ber.length - off) + 1 ≤ fuel) :
-    readObject fuel ber off ≠ .error .fuel :=
-  (fuel_all ber fuel).1 off h
+/-- The recursion of `readObjectDepth` is bounded by the input, whatever the depth limit: with fuel
+    `2 * remaining + 1` (`remaining = len(ber) - off`) the model never reports `fuel`: the number of nested
+    plus sequential calls that any input, however hostile, can drive the Go decoder to is at most linear in
+    the number of bytes that are left. -/
+theorem fuel_sufficient (ber : Bytes) (off d fuel : Nat) (h : 2 * (ber.length - off) + 1 ≤ fuel) :
+    readObject fuel ber off d ≠ .error .fuel :=
+  (fuel_all ber fuel).1 off d h
 
 /-- companion of `fuel_sufficient` for the item loop -/
-theorem fuel_sufficient_items (ber : Bytes) (off ce : Nat) (ind : Bool) (fuel : Nat)
-    (h : 2 * (ber.length - off) + 2 ≤ fuel) : readItems fuel ber off ce ind ≠ .error .fuel :=
-  (fuel_all ber fuel).2 off ce ind h
+theorem fuel_sufficient_items (ber : Bytes) (off ce : Nat) (ind : Bool) (d fuel : Nat)
+    (h : 2 * (ber.length - off) + 2 ≤ fuel) : readItems fuel ber off ce ind d ≠ .error .fuel :=
+  (fuel_all ber fuel).2 off ce ind d h
 
 /-- `ber2der` never runs out of stack in the model: every input is either transcoded or rejected with one of
     the Go error cases, after a number of calls bounded by `2 * len(ber) + 2`. -/
@@ -407,8 +439,8 @@ theorem ber2der_total (ber : Bytes) : ber2der ber ≠ .error .fuel := by
   unfold ber2der
   split
   · simp
-  · have h := fuel_sufficient ber 0 (2 * ber.length + 2) (by omega)
-    cases hr : readObject (2 * ber.length + 2) ber 0 with
+  · have h := fuel_sufficient ber 0 0 (2 * ber.length + 2) (by omega)
+    cases hr : readObject (2 * ber.length + 2) ber 0 0 with
     | error e =>
       intro hh
       injection hh with hh
@@ -417,14 +449,15 @@ theorem ber2der_total (ber : Bytes) : ber2der ber ≠ .error .fuel := by
     | ok r => simp
 
 /-- a result other than `fuel` is stable under more fuel (`readObject`) -/
-theorem readObject_fuel_mono {f : Nat} {ber : Bytes} {off : Nat} {r : Except Err (Obj × Nat)}
-    (h : readObject f ber off = r) (hr : r ≠ .error .fuel) : readObject (f + 1) ber off = r := by
-  subst h; exact (mono_all ber f).1 off hr
+theorem readObject_fuel_mono {f : Nat} {ber : Bytes} {off d : Nat} {r : Except Err (Obj × Nat)}
+    (h : readObject f ber off d = r) (hr : r ≠ .error .fuel) : readObject (f + 1) ber off d = r := by
+  subst h; exact (mono_all ber f).1 off d hr
 
 /-- a result other than `fuel` is stable under more fuel (item loop) -/
-theorem readItems_fuel_mono {f : Nat} {ber : Bytes} {off ce : Nat} {ind : Bool} {r : Except Err (List Obj × Nat)}
-    (h : readItems f ber off ce ind = r) (hr : r ≠ .error .fuel) : readItems (f + 1) ber off ce ind = r := by
-  subst h; exact (mono_all ber f).2 off ce ind hr
+theorem readItems_fuel_mono {f : Nat} {ber : Bytes} {off ce : Nat} {ind : Bool} {d : Nat}
+    {r : Except Err (List Obj × Nat)}
+    (h : readItems f ber off ce ind d = r) (hr : r ≠ .error .fuel) : readItems (f + 1) ber off ce ind d = r := by
+  subst h; exact (mono_all ber f).2 off ce ind d hr
 
 /-- a result other than `fuel` is stable under more fuel (tag loop) -/
 theorem readTag_fuel_mono : ∀ (f : Nat) (ber : Bytes) (off : Nat),
@@ -449,8 +482,8 @@ theorem readTag_fuel_mono : ∀ (f : Nat) (ber : Bytes) (off : Nat),
       · rw [if_neg hge, if_neg hge]
 
 /-- a result other than `fuel` is stable under any amount of additional fuel -/
-theorem readObject_fuel_add (ber : Bytes) (off f : Nat) (h : readObject f ber off ≠ .error .fuel) :
-    ∀ k, readObject (f + k) ber off = readObject f ber off := by
+theorem readObject_fuel_add (ber : Bytes) (off d f : Nat) (h : readObject f ber off d ≠ .error .fuel) :
+    ∀ k, readObject (f + k) ber off d = readObject f ber off d := by
   intro k
   induction k with
   | zero => rfl
@@ -458,14 +491,14 @@ theorem readObject_fuel_add (ber : Bytes) (off f : Nat) (h : readObject f ber of
     rw [← ih]
     exact readObject_fuel_mono rfl (by rw [ih]; exact h)
 
-/-- With enough fuel the result does not depend on the fuel: `readObject` is a function of the input and the
-    offset only, and `2 * remaining + 1` nested/sequential calls always suffice to compute it. -/
-theorem fuel_irrelevant (ber : Bytes) (off f1 f2 : Nat)
+/-- With enough fuel the result does not depend on the fuel: `readObject` is a function of the input, the
+    offset and the depth only, and `2 * remaining + 1` nested/sequential calls always suffice to compute it. -/
+theorem fuel_irrelevant (ber : Bytes) (off d f1 f2 : Nat)
     (h1 : 2 * (ber.length - off) + 1 ≤ f1) (h2 : 2 * (ber.length - off) + 1 ≤ f2) :
-    readObject f1 ber off = readObject f2 ber off := by
-  have hb := fuel_sufficient ber off (2 * (ber.length - off) + 1) (Nat.le_refl _)
-  have e1 := readObject_fuel_add ber off _ hb (f1 - (2 * (ber.length - off) + 1))
-  have e2 := readObject_fuel_add ber off _ hb (f2 - (2 * (ber.length - off) + 1))
+    readObject f1 ber off d = readObject f2 ber off d := by
+  have hb := fuel_sufficient ber off d (2 * (ber.length - off) + 1) (Nat.le_refl _)
+  have e1 := readObject_fuel_add ber off d _ hb (f1 - (2 * (ber.length - off) + 1))
+  have e2 := readObject_fuel_add ber off d _ hb (f2 - (2 * (ber.length - off) + 1))
   have a1 : 2 * (ber.length - off) + 1 + (f1 - (2 * (ber.length - off) + 1)) = f1 := by omega
   have a2 : 2 * (ber.length - off) + 1 + (f2 - (2 * (ber.length - off) + 1)) = f2 := by omega
   rw [a1] at e1
@@ -475,14 +508,175 @@ theorem fuel_irrelevant (ber : Bytes) (off f1 f2 : Nat)
 /-- `ber2der` computes the same result with any larger stack budget: its verdict is determined by the input -/
 theorem ber2der_fuel_irrelevant (ber : Bytes) (f : Nat) (h : 2 * ber.length + 1 ≤ f) :
     ber2der ber = if ber.isEmpty then .error .invalid
-      else match readObject f ber 0 with
+      else match readObject f ber 0 0 with
         | .error e => .error e
         | .ok (o, _) => .ok (encodeTo o) := by
   unfold ber2der
-  rw [fuel_irrelevant ber 0 (2 * ber.length + 2) f (by omega) (by omega)]
+  rw [fuel_irrelevant ber 0 0 (2 * ber.length + 2) f (by omega) (by omega)]
   split
   · rfl
-  · cases readObject f ber 0 <;> rfl
+  · cases readObject f ber 0 0 <;> rfl
+
+-- the nesting bound ---------------------------------------------------------------------------------------------
+
+/-- an object read at depth `d ≤ maxBERDepth` nests at most `maxBERDepth - d` constructed levels, and so do
+    the children collected by the item loop; together by induction on the fuel -/
+theorem depth_all (ber : Bytes) : ∀ f : Nat,
+    (∀ off d o e, d ≤ maxBERDepth → readObject f ber off d = .ok (o, e) → o.depth + d ≤ maxBERDepth) ∧
+    (∀ off ce ind d os e, d ≤ maxBERDepth → readItems f ber off ce ind d = .ok (os, e) →
+        depthItems os + d ≤ maxBERDepth) := by
+  intro f
+  induction f with
+  | zero =>
+    constructor
+    · intro off d o e _ h; simp [readObject] at h
+    · intro off ce ind d os e _ h; simp [readItems] at h
+  | succ f ih =>
+    obtain ⟨ihO, ihI⟩ := ih
+    constructor
+    · intro off d o e hd h
+      rcases readObject_succ_cases ber off d with ⟨r, _, hr, hall⟩ | ⟨tag, o2, ce, ind, _, _, _, hlt, hall⟩
+      · rw [hall f] at h
+        obtain ⟨_, _, tag, c, rfl⟩ := hr o e h
+        simp only [Obj.depth]; omega
+      · rw [hall f] at h
+        cases hi : readItems f ber o2 ce ind (d + 1) with
+        | error e => rw [hi] at h; simp [finish] at h
+        | ok r =>
+          obtain ⟨items, e1⟩ := r
+          rw [hi] at h
+          simp only [finish] at h
+          injection h with h; injection h with h _
+          subst h
+          have := ihI _ _ _ _ _ _ (by omega) hi
+          simp only [Obj.depth]; omega
+    · intro off ce ind d os e hd h
+      rw [readItems] at h
+      split at h
+      · injection h with h; injection h with h _; subst h
+        simp only [depthItems]; omega
+      · cases ho : readObject f ber off d with
+        | error e => rw [ho] at h; simp at h
+        | ok r =>
+          obtain ⟨o, e1⟩ := r
+          rw [ho] at h
+          have hO := ihO _ _ _ _ hd ho
+          dsimp only at h
+          have hcons : ∀ os1 e2, readItems f ber e1 ce ind d = .ok (os1, e2) →
+              depthItems (o :: os1) + d ≤ maxBERDepth := by
+            intro os1 e2 hi
+            have hI := ihI _ _ _ _ _ _ hd hi
+            simp only [depthItems]; omega
+          have hsingle : depthItems [o] + d ≤ maxBERDepth := by
+            simp only [depthItems]; omega
+          cases ind with
+          | true =>
+            simp only [if_true] at h
+            split at h
+            · simp at h
+            · split at h
+              · injection h with h; injection h with h _; subst h; exact hsingle
+              · cases hi : readItems f ber e1 ce true d with
+                | error e => rw [hi] at h; simp at h
+                | ok r =>
+                  obtain ⟨os1, e2⟩ := r
+                  rw [hi] at h
+                  injection h with h; injection h with h _; subst h
+                  exact hcons _ _ hi
+          | false =>
+            simp only [Bool.false_eq_true, if_false] at h
+            cases hi : readItems f ber e1 ce false d with
+            | error e => rw [hi] at h; simp at h
+            | ok r =>
+              obtain ⟨os1, e2⟩ := r
+              rw [hi] at h
+              injection h with h; injection h with h _; subst h
+              exact hcons _ _ hi
+
+/-- The nesting bound of the repaired code: an object that `readObjectDepth` accepts at depth `d` has at most
+    `maxBERDepth - d` levels of constructed encodings below (and including) it.  A constructed object is
+    accepted only at `d < 128`, its children are read at `d + 1`; primitives are accepted at depth 128 too. -/
+theorem depth_bounded {fuel : Nat} {ber : Bytes} {off d : Nat} {o : Obj} {off2 : Nat} (hd : d ≤ maxBERDepth)
+    (h : readObject fuel ber off d = .ok (o, off2)) : o.depth + d ≤ maxBERDepth :=
+  (depth_all ber fuel).1 off d o off2 hd h
+
+/-- companion of `depth_bounded` for the children collected by the item loop -/
+theorem depth_bounded_items {fuel : Nat} {ber : Bytes} {off ce : Nat} {ind : Bool} {d : Nat} {os : List Obj}
+    {off2 : Nat} (hd : d ≤ maxBERDepth) (h : readItems fuel ber off ce ind d = .ok (os, off2)) :
+    depthItems os + d ≤ maxBERDepth :=
+  (depth_all ber fuel).2 off ce ind d os off2 hd h
+
+/-- Whatever `ber2der` accepts is the encoding of an object tree of nesting depth at most 128: the Go
+    recursion depth of `readObjectDepth` and of `EncodeTo` is bounded by a constant that does not depend on
+    the input. -/
+theorem ber2der_depth {ber der : Bytes} (h : ber2der ber = .ok der) :
+    ∃ o, o.depth ≤ maxBERDepth ∧ der = encodeTo o := by
+  unfold ber2der at h
+  split at h
+  · simp at h
+  · cases hr : readObject (2 * ber.length + 2) ber 0 0 with
+    | error e => rw [hr] at h; simp at h
+    | ok r =>
+      obtain ⟨o, e⟩ := r
+      rw [hr] at h
+      injection h with h
+      exact ⟨o, by have := depth_bounded (by simp [maxBERDepth]) hr; omega, h.symm⟩
+
+/-- beyond the limit only primitives are accepted: an accepted constructed object was read at depth < 128
+    (so the hypothesis `d ≤ maxBERDepth` of `depth_bounded` only excludes primitives read at absurd depths) -/
+theorem tooDeep_only_rejects {fuel : Nat} {ber : Bytes} {off d : Nat} {o : Obj} {off2 : Nat}
+    (h : readObject fuel ber off d = .ok (o, off2)) : d ≤ maxBERDepth ∨ ∃ tag c, o = .prim tag c := by
+  cases fuel with
+  | zero => simp [readObject] at h
+  | succ f =>
+    rcases readObject_succ_cases ber off d with ⟨r, _, hr, hall⟩ | ⟨tag, o2, ce, ind, _, _, _, hlt, hall⟩
+    · rw [hall f] at h; exact Or.inr (hr o off2 h).2.2
+    · exact Or.inl (by omega)
+
+-- cost of re-encoding -------------------------------------------------------------------------------------------
+
+/-- the content of a structured object is part of its encoding -/
+theorem encodeTo_cons_length (tag : Bytes) (items : List Obj) :
+    (encodeItems items).length ≤ (encodeTo (.cons tag items)).length := by
+  rw [encodeTo]; simp only [List.length_append]; omega
+
+mutual
+/-- `EncodeTo` re-buffers every byte at most once per enclosing constructed level: the total number of bytes
+    it writes to buffers is at most `(depth + 1) × (size of the output)`. -/
+theorem encodeCost_le : (o : Obj) → encodeCost o ≤ (o.depth + 1) * (encodeTo o).length
+  | .prim tag c => by simp [encodeCost, Obj.depth]
+  | .cons tag items => by
+    have h := encodeCostItems_le items
+    have hl := encodeTo_cons_length tag items
+    rw [encodeCost, Obj.depth]
+    have h2 : (depthItems items + 1) * (encodeItems items).length
+        ≤ (depthItems items + 1) * (encodeTo (.cons tag items)).length := Nat.mul_le_mul_left _ hl
+    have h3 : (1 + depthItems items + 1) * (encodeTo (.cons tag items)).length
+        = (depthItems items + 1) * (encodeTo (.cons tag items)).length + (encodeTo (.cons tag items)).length := by
+      rw [show 1 + depthItems items + 1 = (depthItems items + 1) + 1 by omega, Nat.add_mul, Nat.one_mul]
+    omega
+/-- companion of `encodeCost_le` for a list of children -/
+theorem encodeCostItems_le : (os : List Obj) → encodeCostItems os ≤ (depthItems os + 1) * (encodeItems os).length
+  | [] => by simp [encodeCostItems]
+  | o :: os => by
+    have h1 := encodeCost_le o
+    have h2 := encodeCostItems_le os
+    rw [encodeCostItems, depthItems, encodeItems, List.length_append, Nat.mul_add]
+    have a1 : (o.depth + 1) * (encodeTo o).length ≤ (max o.depth (depthItems os) + 1) * (encodeTo o).length :=
+      Nat.mul_le_mul_right _ (by omega)
+    have a2 : (depthItems os + 1) * (encodeItems os).length ≤ (max o.depth (depthItems os) + 1) * (encodeItems os).length :=
+      Nat.mul_le_mul_right _ (by omega)
+    omega
+end
+
+/-- Memory/time bound of the re-encoding step of `ber2der`: an accepted input yields an object tree of depth at
+    most 128, so `EncodeTo` writes at most `(128 + 1) × len(der)` bytes to buffers in total — a constant
+    multiple of the output size (which `C17`'s length lemmas bound by the input size), where without the depth
+    limit the factor was the attacker-chosen nesting depth, i.e. quadratic in the input. -/
+theorem ber2der_cost {ber der : Bytes} (h : ber2der ber = .ok der) :
+    ∃ o, der = encodeTo o ∧ o.depth ≤ maxBERDepth ∧ encodeCost o ≤ (maxBERDepth + 1) * der.length := by
+  obtain ⟨o, hd, rfl⟩ := ber2der_depth h
+  refine ⟨o, rfl, hd, Nat.le_trans (encodeCost_le o) (Nat.mul_le_mul_right _ (by omega))⟩
 
 -- non-vacuity ---------------------------------------------------------------------------------------------------
 
@@ -492,13 +686,32 @@ example : ber2der [0x30, 0x80, 0x30, 0x80, 0x02, 0x01, 0x05, 0x00, 0x00, 0x00, 0
 
 /-- the `fuel` error is real: with less fuel than the nesting needs the model does give up, so
     `fuel_sufficient` is not vacuous -/
-example : (readObject 4 [0x30, 0x80, 0x30, 0x80, 0x02, 0x01, 0x05, 0x00, 0x00, 0x00, 0x00] 0).toOption.isNone
-    ∧ (readObject 5 [0x30, 0x80, 0x30, 0x80, 0x02, 0x01, 0x05, 0x00, 0x00, 0x00, 0x00] 0).toOption.isSome := by
+example : (readObject 4 [0x30, 0x80, 0x30, 0x80, 0x02, 0x01, 0x05, 0x00, 0x00, 0x00, 0x00] 0 0).toOption.isNone
+    ∧ (readObject 5 [0x30, 0x80, 0x30, 0x80, 0x02, 0x01, 0x05, 0x00, 0x00, 0x00, 0x00] 0 0).toOption.isSome := by
   constructor <;> rfl
 
 /-- the progress bound `off + 2 ≤ off'` is attained (empty primitive) and rejected input stays rejected -/
-example : (readObject 1 [0x05, 0x00] 0).toOption.map (·.2) = some 2
+example : (readObject 1 [0x05, 0x00] 0 0).toOption.map (·.2) = some 2
     ∧ (ber2der [0x30, 0x80, 0x02, 0x01, 0x05, 0x00]).toOption.isNone := by
   constructor <;> rfl
+
+/-- the depth check sits exactly at `maxBERDepth`: a constructed object is read at depth 127 (its primitive
+    child at depth 128 is fine) and refused at depth 128 — also when it is empty; a primitive is fine there -/
+example : (readObject 9 [0x30, 0x80, 0x02, 0x01, 0x01, 0x00, 0x00] 0 127).toOption.map (·.1.depth) = some 1
+    ∧ (readObject 9 [0x30, 0x80, 0x02, 0x01, 0x01, 0x00, 0x00] 0 128).toOption.isNone
+    ∧ (readObject 9 [0x30, 0x00] 0 128).toOption.isNone
+    ∧ (readObject 9 [0x02, 0x01, 0x01] 0 128).toOption.isSome := by
+  refine ⟨?_, ?_, ?_, ?_⟩ <;> rfl
+
+/-- `30 80` × n, `02 01 01`, `00 00` × n: an INTEGER inside n nested indefinite-length SEQUENCEs -/
+def nested : Nat → Bytes
+  | 0 => [0x02, 0x01, 0x01]
+  | n + 1 => [0x30, 0x80] ++ nested n ++ [0x00, 0x00]
+
+/-- 129 nested constructed encodings are rejected by `ber2der` … (evaluated by the kernel, a few seconds) -/
+theorem nested129_rejected : (ber2der (nested 129)).toOption.isNone = true := by decide +kernel
+
+/-- … and 128 are accepted, so `depth_bounded` is tight (evaluated by the kernel, about ten seconds) -/
+theorem nested128_accepted : (ber2der (nested 128)).toOption.isSome = true := by decide +kernel
 
 end Props.C18
